@@ -36,32 +36,34 @@ def t(params, **kw):
 
 # ---- C06 / C19: the 21 message forms
 forms = [
- ("acceptedkey", "VerifC06AcceptedKey", {"U": 6, "A": 6, "K": 6, "PID": 2}, {"U": 32, "A": 40, "K": 44, "PID": 5}),
- ("acceptedkeytrailing", "VerifC06AcceptedKeyTrailing", {"U": 6, "A": 6, "K": 6, "J": 8, "PID": 2}, {"U": 16, "A": 16, "K": 20, "J": 16, "PID": 3}),
- ("acceptedcert", "VerifC06AcceptedCert", {"U": 8, "A": 8, "K": 8, "I": 16, "PID": 1, "PORT": 5, "T": 6, "SERIAL": 20, "SWEEP": 1, "FIX": 2}, {"U": 8, "A": 8, "K": 8, "I": 24, "PID": 3, "PORT": 5, "T": 6, "SERIAL": 20}),
- ("acceptedpw", "VerifC06AcceptedPassword", {"U": 8, "A": 8, "PID": 2}, {"U": 32, "A": 46, "PID": 5}),
- ("certinvalid", "VerifC06CertInvalid", {"R": 24}, {"R": 64}),
- ("invaliduser", "VerifC06InvalidUser", {"U": 10, "A": 10}, {"U": 32, "A": 46}),
- ("allowusers", "VerifC06NotInAllowUsers", {"U": 8, "A": 8}, {"U": 32, "A": 46}),
- ("denyusers", "VerifC06InDenyUsers", {"U": 8, "A": 8}, {"U": 32, "A": 46}),
- ("nogroup", "VerifC06NotInAnyGroup", {"U": 8, "A": 8}, {"U": 32, "A": 46}),
- ("denygroups", "VerifC06InDenyGroups", {"U": 8, "A": 8}, {"U": 32, "A": 46}),
- ("allowgroups", "VerifC06NotInAllowGroups", {"U": 8, "A": 8}, {"U": 32, "A": 46}),
- ("shellmissing", "VerifC06ShellNotExist", {"U": 8, "S": 10}, {"U": 32, "S": 40}),
- ("shellnoexec", "VerifC06ShellNotExec", {"U": 8, "S": 10}, {"U": 32, "S": 40}),
- ("rootrefused", "VerifC06RootRefused", {"A": 16}, {"A": 46}),
- ("badowner", "VerifC06BadOwner", {"U": 8, "P": 12}, {"U": 32, "P": 48}),
- ("nastyptr", "VerifC06NastyPTR", {"D": 10, "A": 10}, {"D": 40, "A": 46}),
- ("reversemap", "VerifC06ReverseMapping", {"D": 10, "A": 10}, {"D": 40, "A": 46}),
- ("nomapback", "VerifC06NoMapBack", {"D": 10, "A": 10}, {"D": 40, "A": 46}),
- ("maxauth", "VerifC06MaxAuth", {"U": 8, "A": 8}, {"U": 32, "A": 46}),
- ("revoked", "VerifC06Revoked", {"K": 8, "P": 18}, {"K": 44, "P": 40}),
- ("revokederr", "VerifC06RevokedErr", {"K": 8, "P": 24}, {"K": 44, "P": 40}),
- ("failedpw", "VerifC06FailedPassword", {"U": 10, "A": 10}, {"U": 32, "A": 46}),
+ ("acceptedkey", "VerifC06AcceptedKey", {"U": 6, "A": 6, "K": 6, "PID": 2}, {"U": 6, "A": 6, "K": 6, "PID": 3}),
+ ("acceptedkeytrailing", "VerifC06AcceptedKeyTrailing", {"U": 6, "A": 6, "K": 6, "J": 8, "PID": 2}, {"U": 6, "A": 6, "K": 6, "J": 8, "PID": 3}),
+ ("acceptedcert", "VerifC06AcceptedCert", {"U": 8, "A": 8, "K": 8, "I": 16, "PID": 1, "PORT": 5, "T": 6, "SERIAL": 20, "SWEEP": 1, "FIX": 2}, {"U": 8, "A": 8, "K": 8, "I": 16, "PID": 2, "PORT": 5, "T": 6, "SERIAL": 20, "SWEEP": 1, "FIX": 2}),
+ ("acceptedpw", "VerifC06AcceptedPassword", {"U": 8, "A": 8, "PID": 2}, {"U": 12, "A": 12, "PID": 3}),
+ ("certinvalid", "VerifC06CertInvalid", {"R": 24}, {"R": 36}),
+ ("invaliduser", "VerifC06InvalidUser", {"U": 10, "A": 10}, {"U": 15, "A": 15}),
+ ("allowusers", "VerifC06NotInAllowUsers", {"U": 8, "A": 8}, {"U": 12, "A": 12}),
+ ("denyusers", "VerifC06InDenyUsers", {"U": 8, "A": 8}, {"U": 12, "A": 12}),
+ ("nogroup", "VerifC06NotInAnyGroup", {"U": 8, "A": 8}, {"U": 12, "A": 12}),
+ ("denygroups", "VerifC06InDenyGroups", {"U": 8, "A": 8}, {"U": 12, "A": 12}),
+ ("allowgroups", "VerifC06NotInAllowGroups", {"U": 8, "A": 8}, {"U": 12, "A": 12}),
+ ("shellmissing", "VerifC06ShellNotExist", {"U": 8, "S": 10}, {"U": 12, "S": 15}),
+ ("shellnoexec", "VerifC06ShellNotExec", {"U": 8, "S": 10}, {"U": 12, "S": 15}),
+ ("rootrefused", "VerifC06RootRefused", {"A": 16}, {"A": 24}),
+ ("badowner", "VerifC06BadOwner", {"U": 8, "P": 12}, {"U": 12, "P": 18}),
+ ("nastyptr", "VerifC06NastyPTR", {"D": 10, "A": 10}, {"D": 15, "A": 15}),
+ ("reversemap", "VerifC06ReverseMapping", {"D": 10, "A": 10}, {"D": 15, "A": 15}),
+ ("nomapback", "VerifC06NoMapBack", {"D": 10, "A": 10}, {"D": 15, "A": 15}),
+ ("maxauth", "VerifC06MaxAuth", {"U": 8, "A": 8}, {"U": 12, "A": 12}),
+ ("revoked", "VerifC06Revoked", {"K": 8, "P": 18}, {"K": 12, "P": 27}),
+ ("revokederr", "VerifC06RevokedErr", {"K": 8, "P": 24}, {"K": 12, "P": 36}),
+ ("failedpw", "VerifC06FailedPassword", {"U": 10, "A": 10}, {"U": 15, "A": 15}),
 ]
 for prop, pre in (("C06", "c06."), ("C19", "c19.")):
-    runs = [run(n, SSHD, fn, q(qp), t(tp), reach=["c06." + n + ".event"],
-                bounds="field maxima " + json.dumps(qp) + " (quick) / " + json.dumps(tp) + " (thorough); pid 1..5 digits")
+    # the two forms with a second, chained expression need minutes per path over the full byte
+    # alphabet even at the quick sizes: their thorough tier keeps the 7-bit alphabet
+    runs = [run(n, SSHD, fn, q(qp), (q(tp) if n in ("acceptedcert", "acceptedkeytrailing") else t(tp)), reach=["c06." + n + ".event"],
+                bounds="field maxima " + json.dumps(qp) + " (quick) / " + json.dumps(tp) + " (thorough" + (", 7-bit bytes" if n in ("acceptedcert", "acceptedkeytrailing") else "") + "); pid 1..5 digits")
             for (n, fn, qp, tp) in forms]
     write(prop, runs,
           ["quick tier: every input byte < 0x80 (thorough: all byte values; regex classes are checked to be uniform over non-ASCII runes)",
@@ -76,6 +78,9 @@ c17 = []
 for n, fn in (("invalid-user", "VerifC17InvalidUser"), ("failed-password", "VerifC17FailedPassword"), ("max-auth", "VerifC17MaxAuth")):
     c17.append(run(n, SSHD, fn, q({"U": 48, "A": 12}), t({"U": 100, "A": 16}), reach=["c17." + {"invalid-user": "invalid", "failed-password": "failedpw", "max-auth": "maxauth"}[n] + ".event"],
                    bounds="user name: any bytes but newline, 0/1..U; address 1..A over [0-9A-Za-z:.%_-]; port 1..5 digits"))
+for n, fn, L in (("invalid-user-longest", "VerifC17InvalidUser", 100), ("failed-password-longest", "VerifC17FailedPassword", 113), ("max-auth-longest", "VerifC17MaxAuth", 113)):
+    c17.append(run(n, SSHD, fn, q({"U": L, "UMIN": L, "A": 8}), t({"U": L, "UMIN": L, "A": 16}), reach=["c17." + {"invalid-user-longest": "invalid", "failed-password-longest": "failedpw", "max-auth-longest": "maxauth"}[n] + ".event"],
+                   bounds="user text of exactly %d bytes (any bytes but newline): sshd's 100-byte truncation%s; address 1..A; port 1..5 digits" % (L, " plus the 13 bytes of 'invalid user ' that sshd prints in the same place" if L > 100 else "")))
 write("C17", c17, ["quick tier: every input byte < 0x80", "stubs: zap, prometheus, uuid, time.Now"],
       ["user names longer than U bytes (thorough U=100 is sshd's %.100s truncation)", "addresses longer than A bytes"])
 
@@ -104,26 +109,26 @@ kw = ["Accepted publickey", "Accepted password", "Certificate invalid", "Invalid
 def c11runs(NQ, NT, TQ, TT):
     runs = [run("arbitrary", SSHD, "VerifC11Arbitrary", q({"N": NQ}, ascii7=False), t({"N": NT}), reach=["c11.nothing"],
                 bounds="line: any bytes, 0..N; pid token: any bytes, 0..3")]
-    need = {0: 56, 4: 48, 7: 34, 9: 60}  # tails long enough for a recognised message (for kw00: a second, complete message after the keyword)
+    need = {0: 56, 4: 48, 7: 34, 9: 60, 13: 40}  # tails long enough for a recognised message (for kw00: a second, complete message after the keyword)
     for i, k in enumerate(kw):
-        runs.append(run("kw%02d" % i, SSHD, "VerifC11Keyword", q({"K": i, "T": max(TQ, need.get(i, 0))}, ascii7=False), t({"K": i, "T": max(TT, need.get(i, 0) + 8)}), reach=(["c11.event"] if i == 2 else ["c11.event", "c11.nothing"]),
+        runs.append(run("kw%02d" % i, SSHD, "VerifC11Keyword", q({"K": i, "T": max(TQ, need.get(i, 0))}, ascii7=False), t({"K": i, "T": max(TT, need.get(i, 0))}), reach=(["c11.event"] if i == 2 else ["c11.event", "c11.nothing"]),
                         bounds="keyword %r + any bytes 0..T; pid token any bytes 0..3" % k))
     return runs
 c11_assume = ["no write fault is injected here (C05 covers it)", "stubs: zap, prometheus, json.Marshal, uuid, time.Now",
               "regex classes are checked per instruction to be uniform over non-ASCII runes, which makes the byte-level encoding exact for invalid UTF-8 as well"]
 c11ing = [run("ingester-line", M + "/ingesters/syslog", "VerifC11IngesterLine", q({"N": 8}), t({"N": 12}), reach=["c11.ingester.processed"],
               bounds="syslog ingester Process/ParseSyslogMessage on a line of 0..N bytes but newline (quick: 7-bit bytes, thorough: any bytes): the PID token and message handed to the processor are verbatim substrings of the line (composes with the processor-level runs: substring-of is transitive)")]
-write("C11", c11runs(24, 48, 28, 56) + c11ing, c11_assume, ["lines longer than the bounds ('very long lines')"], site_prefix="c11.")
+write("C11", c11runs(24, 32, 28, 40) + c11ing, c11_assume, ["lines longer than the bounds ('very long lines')"], site_prefix="c11.")
 
 # ---- C05
 c05 = []
 for form, fname in ((0, "key"), (1, "cert"), (2, "password"), (3, "key-trailing-text")):
     for mode, mname in ((0, "buffered"), (1, "receiver"), (2, "cancelled-before"), (3, "cancelled-concurrently")):
         qp = {"FORM": form, "MODE": mode, "U": 4, "A": 4, "K": 4, "I": 8, "PIDLEN": 3, "FIXLEN": 1}
-        tp = {"FORM": form, "MODE": mode, "U": 6, "A": 6, "K": 6, "I": 12, "PIDLEN": 6, "FIXLEN": 1 if (form == 1 or mode in (1, 3)) else 0}
+        tp = {"FORM": form, "MODE": mode, "U": 6, "A": 6, "K": 6, "I": 12, "PIDLEN": 6, "FIXLEN": 1}
         reach = ["c05.returned", "c05.fault"] + (["c05.login"] if mode < 2 else ["c05.cancelled-returned"])
         c05.append(run("%s-%s" % (fname, mname), SSHD, "VerifC05Accepted", q(qp), t(tp), reach=reach,
-                       bounds="accepted %s line, correlator %s; PID token 1..PIDLEN digits (not all zero); write fault symbolic" % (fname, mname)))
+                       bounds="accepted %s line, correlator %s; field lengths fixed at their maxima with symbolic contents (key id length symbolic); PID token 1..PIDLEN digits (not all zero); write fault symbolic" % (fname, mname)))
 write("C05", c05, ["failure / unrecognised lines never forward a login: asserted on every path of the C06, C11 and C17 harnesses (sites *.nologin, c11.no-login-without-event, c11.login-needs-success)",
                    "schedules: every interleaving of the processor with the receiver / canceller goroutine at channel and mutex operations",
                    "stubs: zap, prometheus, json.Marshal, uuid, time.Now, sync.Mutex/atomic (engine objects), context executed from its real source"],
@@ -175,9 +180,9 @@ write("C12", [run("long-record", NP, "VerifC12LongRecord", {"params": {"L": 4100
 
 
 # ---- C19 again: the message forms plus the arbitrary lines of C11 (sites c19.*)
-c19runs = [run(n, SSHD, fn, q(qp), t(tp), reach=["c06." + n + ".event"],
+c19runs = [run(n, SSHD, fn, q(qp), (q(tp) if n in ("acceptedcert", "acceptedkeytrailing") else t(tp)), reach=["c06." + n + ".event"],
                bounds="field maxima " + json.dumps(qp) + " (quick) / " + json.dumps(tp) + " (thorough)") for (n, fn, qp, tp) in forms]
-c19runs += c11runs(24, 48, 28, 56)
+c19runs += c11runs(24, 32, 28, 40)
 write("C19", c19runs,
       ["counters are read from a private registry before/after each line (engine: observation log of CounterVec.WithLabelValues(...).Inc())",
        "lines that start with a recognised keyword but emit nothing may still count (the statement allows it)",
@@ -265,11 +270,13 @@ write("C15", [run("parse-lines", AUD, "VerifC15ParseLines", {"params": {"K": 3, 
               run("grouping", AUD, "VerifC15Grouping", {"params": {"CLOCKSTEP": 0}, "preempt": 0}, None, reach=["c15.group.done"],
                   bounds="two compound kernel events (3 records each, symbolic distinct sequence numbers) in every interleaving of their records"),
               run("read-errors", AUD, "VerifC15ReadErrors", {"params": {}, "preempt": 1}, {"params": {}, "preempt": 3}, reach=["c15.read.stopped"],
-                  bounds="Auditd.Read with one of: login without event, login with pid <= 0 (symbolic), login without credential, malformed audit line")],
+                  bounds="Auditd.Read with one of: login without event, login with pid <= 0 (symbolic), login without credential, malformed audit line"),
+              run("callback-error", AUD, "VerifC15CallbackError", {"params": {"TICKHANG": 1, "CLOCKSTEP": 0}, "preempt": 1}, {"params": {"TICKHANG": 1, "CLOCKSTEP": 0}, "preempt": 2}, reach=["c15.cb.stopped"],
+                  bounds="Auditd.Read with a LOGIN record whose pid is not a number (the correlator's error travels through the reassembler callback's non-blocking hand-off), with and without an unrelated login pending at the same time; every interleaving within the preemption bound; a state in which only timer ticks remain possible counts as 'keeps running'")],
       ["go-libaudit's ParseLogLine and Reassembler are executed from their real source; aucoalesce.CoalesceMessages is NOT executable in the engine (its normalisation tables are built by package initialisers from embedded YAML through reflection), so the hand-over of reassembled events to the correlator inside ReassemblyComplete - and with it 'write error at the k-th event' and 'unparsable PID in a LOGIN record' arriving through the reassembler - is outside this check; the correlator's own error returns for those causes are exercised in C01/C14 harnesses' noerr obligations",
        "'stops the processor' is decided as: Read returns (otherwise the harness deadlocks) with an error whose chain contains the cause",
        "no time passes between clock readings inside one run (CLOCKSTEP=0): reassembly time-outs are outside the claim"],
-      ["errors produced inside ReassemblyComplete (needs aucoalesce)", "reassembly time-outs and more than 8 events in flight"], site_prefix="c15.",
+      ["errors of CoalesceMessages itself (the engine uses a model of it)", "reassembly time-outs and more than 8 events in flight"], site_prefix="c15.",
       init_extra=["github.com/elastic/go-libaudit/v2/auparse", "github.com/elastic/go-libaudit/v2"])
 
 # ---- C08
